@@ -68,6 +68,7 @@ def parseOp (line : String) : Option Op :=
   | ["inp", a, b, c] => do some (.inp (← n? a) (← n? b) (← n? c))
   | ["input"] => some .input
   | ["reclaim"] => some .reclaim
+  | ["reclaimu"] => some .reclaimu
   | ["inpr", a, b, c] => do some (.inpr (← n? a) (← n? b) (← n? c))
   | ["rest", w] => some (.rest w)
   | ["resto", w] => some (.resto w)
@@ -109,6 +110,7 @@ def unitOnly : Op → Bool
   | .clones _ => true
   | .unclone _ => true
   | .unload _ => true
+  | .reclaimu => true
   | _ => false
 
 def lpcOnly : Op → Bool
